@@ -81,6 +81,19 @@ class Real:
     def build(self, cfg, seed):
         return self.gs.CondSRF(self.krige(cfg), seed=SEEDS[seed], mode_no=MODE_NO)
 
+    def positions(self, tok, cpos_all):
+        """Target positions for a token.  In buffer mode the caller keeps ONE float64 array and
+        overwrites it in place for every new set of target points (as user code often does)."""
+        t = target(tok, self.dim, cpos_all)
+        if not getattr(self, "buffer_mode", False):
+            return t
+        arr = np.array(t, dtype=np.double)
+        if getattr(self, "_buf", None) is None or self._buf.shape != arr.shape:
+            self._buf = arr
+        else:
+            self._buf[...] = arr
+        return self._buf
+
     def apply(self, op, cpos_all):
         c, n = self.c, op["name"]
         if n == "Call":
@@ -88,10 +101,10 @@ class Real:
             if op["s"] != KEEP:
                 kw["seed"] = SEEDS[op["s"]]
             if op["p"] != KEEP:
-                return c(target(op["p"], self.dim, cpos_all), **kw)
+                return c(self.positions(op["p"], cpos_all), **kw)
             return c(**kw)
         if n == "SetPos":
-            c.set_pos(target(op["p"], self.dim, cpos_all))
+            c.set_pos(self.positions(op["p"], cpos_all))
         elif n == "SetCondition":
             if op["form"] == "none":
                 c.krige.set_condition()
@@ -115,7 +128,7 @@ class Real:
             else:
                 c.trend = MEAN[op["v"]]
         elif n == "KrigeCall":
-            c.krige(target(op["p"], self.dim, cpos_all))
+            c.krige(self.positions(op["p"], cpos_all))
         elif n == "DeleteFields":
             c.delete_fields()
         else:
@@ -137,12 +150,15 @@ def since_last_compare(hist):
 
 
 def replay(col, gs, variant, dim, beh, origin, nugget=0.0, big=False):
+    buffer_mode = big == "buffer"
+    big = big is True
     OFF[0] = BIG if big else 0.0
     st0 = beh[0]
     cpos_all = [cond_pos(1, dim), cond_pos(2, dim)]
     r = Real(gs, variant, dim, st0["cfg"], st0["seed"], nugget)
+    r.buffer_mode = buffer_mode
     hist, ncmp = [], 0
-    vtag = "%s%s%s" % (variant, ":nugget" if nugget else "", ":bigcoords" if big else "")
+    vtag = "%s%s%s%s" % (variant, ":nugget" if nugget else "", ":bigcoords" if big else "", ":posbuffer" if buffer_mode else "")
     for st in beh[1:]:
         op = st["op"]
         hist.append(op)
@@ -413,7 +429,7 @@ def run(pid, tier, seed, replay=None):
         trace_validation(rep, sc, tier, rng)
     work = []
     combos = [("Simple", 1, 0.0, False), ("Ordinary", 2, 0.0, False), ("Simple", 2, 0.3, False), ("Ordinary", 1, 0.0, True),
-              ("Simple", 2, 0.0, True)]
+              ("Simple", 2, 0.0, True), ("Simple", 1, 0.0, "buffer"), ("Ordinary", 2, 0.0, "buffer")]
     if thorough:
         combos += [("Ordinary", 1, 0.0, False), ("Simple", 2, 0.0, False), ("Ordinary", 2, 0.3, False), ("Ordinary", 2, 0.0, True)]
     for ci, (variant, dim, nugget, big) in enumerate(combos):
